@@ -103,10 +103,27 @@ def run(prop, tier, seed, replay=None):
 
 
 def run_udp(binp, seed, rounds):
-    p = subprocess.run([binp, "udp", str(seed), str(rounds)], text=True, stdout=subprocess.PIPE, timeout=600)
+    p = subprocess.run([binp, "udp", str(seed), str(rounds)], text=True, stdout=subprocess.PIPE, timeout=900)
     if p.returncode != 0:
         raise vlib.ToolError("server udp driver failed: " + p.stdout[-500:])
     o = json.loads(p.stdout.strip().splitlines()[-1])
     if o.get("tool_trouble"):
         raise vlib.ToolError("loopback UDP driver: " + o["tool_trouble"])
-    return {"bad": o.get("violations", []), "rounds_ok": o.get("rounds_ok", 0), "stats": o}
+    # the verdict is TLC's: ObserveServerUdp!C19_UdpObserved on the run's record
+    rec = {"rounds": o["rounds"], "rounds_ok": o["rounds_ok"], "heartbeat_progress": o["heartbeat_progress"],
+           "oversized_phase_ok": o.get("oversized_phase_ok", False), "shutdown_ok": o["shutdown_ok"],
+           "loop_ended": any("terminated" in v for v in o.get("violations", []))}
+    path = tmp("udp_rec.ndjson")
+    with open(path, "w") as fh:
+        fh.write(json.dumps(rec) + "\n")
+    cfg = vlib.write_cfg(tmp("obsudp.cfg"), None, {}, invariants=["C19_UdpObserved"], init_next=("ObsInit", "ObsNext"))
+    r, text = vlib.run_tlc("ObserveServerUdp.tla", cfg, workers=1, timeout=300, env={"TRACE": path, "JAVA_TOOL_OPTIONS": "-Xss1g"})
+    os.remove(path)
+    if "Parsing or semantic analysis failed" in text:
+        raise vlib.ToolError("ObserveServerUdp failed to parse: " + text[-500:])
+    bad = []
+    if re.search(r"Invariant C19_UdpObserved is violated", text):
+        bad = o.get("violations") or ["C19_UdpObserved fails: " + json.dumps(rec)]
+    elif "Error:" in text:
+        raise vlib.ToolError("ObserveServerUdp failed: " + text[-500:])
+    return {"bad": bad, "rounds_ok": o.get("rounds_ok", 0), "stats": o}
